@@ -54,6 +54,7 @@ pub enum Blk {
     TxSpent,
     MerkleAppend,
     Gt96,
+    GtLong,
     AtrGarbage,
     FeeGarbage,
     Id0,
@@ -63,7 +64,7 @@ pub enum Blk {
     ZeroParentHighId,
     FetchFails,
 }
-pub const BLKS: [Blk; 20] = [
+pub const BLKS: [Blk; 21] = [
     Blk::Garbage,
     Blk::Truncated,
     Blk::HeaderOnly,
@@ -76,6 +77,7 @@ pub const BLKS: [Blk; 20] = [
     Blk::TxSpent,
     Blk::MerkleAppend,
     Blk::Gt96,
+    Blk::GtLong,
     Blk::AtrGarbage,
     Blk::FeeGarbage,
     Blk::Id0,
@@ -405,7 +407,7 @@ fn hostile_block(u: &Uni, k: Blk) -> ([u8; 32], u64, Option<Vec<u8>>) {
         Blk::UnknownParent => bad(Bad::UnknownParent),
         Blk::TxSpent => bad(Bad::TxSpent),
         Blk::MerkleAppend => bad(Bad::MerkleAppend),
-        Blk::Gt96 | Blk::AtrGarbage | Blk::FeeGarbage | Blk::Id0 | Blk::IdMax | Blk::OrphanLowId | Blk::ZeroParentLowId | Blk::ZeroParentHighId => {
+        Blk::Gt96 | Blk::GtLong | Blk::AtrGarbage | Blk::FeeGarbage | Blk::Id0 | Blk::IdMax | Blk::OrphanLowId | Blk::ZeroParentLowId | Blk::ZeroParentHighId => {
             let mut b = x.clone();
             b.created_hashmap_of_slips_spent_this_block = false;
             b.slips_spent_this_block.clear();
@@ -413,6 +415,12 @@ fn hostile_block(u: &Uni, k: Blk) -> ([u8; 32], u64, Option<Vec<u8>>) {
                 Blk::Gt96 => {
                     let i = b.transactions.iter().position(|t| t.transaction_type == TransactionType::GoldenTicket).expect("gt");
                     b.transactions[i].data.truncate(96);
+                    b.transactions[i].sign(&key(0).private);
+                }
+                Blk::GtLong => {
+                    // a payload longer than the fixed golden-ticket size, re-signed by the miner
+                    let i = b.transactions.iter().position(|t| t.transaction_type == TransactionType::GoldenTicket).expect("gt");
+                    b.transactions[i].data.resize(130, 0x5A);
                     b.transactions[i].sign(&key(0).private);
                 }
                 Blk::AtrGarbage => {
